@@ -182,7 +182,8 @@ PROPS["C15"] = dict(
 )
 
 PROPS["C07"] = dict(
-    model="MemModel.v (memory-level: heap objects, slices as (array,len,cap), maps, stream cells)",
+    model="MemModel.v (memory-level: heap objects, slices as (array,len,cap), maps, stream cells; carcdr = gen/CellGen.v, CarCdr translated from micro/stream.go on every run into the statement language of CellLang.v; CellLangSpec.v)",
+    gens=[gens.gen_cell],
     harness=[dict(name="main", n_quick=600, n_thorough=1500, shards_quick=1, shards_thorough=8, timeout=1500),
              dict(name="race", race=True, n_quick=80, n_thorough=300, shards_quick=1, shards_thorough=2, coq=False, timeout=1500)],
     mismatch_is_input=True,
